@@ -73,7 +73,27 @@ pub fn panic_site(msg: &str) -> String {
     file.to_string()
 }
 
+/// Self-test of the supervisor (never active unless VERIF_SELFTEST is set): the scenario whose
+/// JSON hash equals the poison value aborts the process or hangs, as code under test might.
+fn selftest_poison(scenario: &Value) {
+    if let Ok(p) = std::env::var("VERIF_SELFTEST_POISON") {
+        if let Some((kind, h)) = p.split_once(':') {
+            let mut hh = H64::new();
+            hh.str(&scenario.to_string());
+            if h.parse::<u64>().ok() == Some(hh.finish()) {
+                match kind {
+                    "abort" => std::process::abort(),
+                    _ => loop {
+                        std::thread::sleep(Duration::from_millis(50));
+                    },
+                }
+            }
+        }
+    }
+}
+
 fn run_guarded(check: &dyn Check, scenario: &Value, stats: &mut Stats) -> Outcome {
+    selftest_poison(scenario);
     match catch(|| check.run(scenario, stats)) {
         Ok(o) => o,
         Err(msg) => Outcome {
@@ -387,6 +407,17 @@ fn supervise(check: &'static dyn Check, tier: Tier) -> i32 {
     let seed = verif_seed();
     let id = check.id();
     let n = check.count(tier);
+    if let Ok(st) = std::env::var("VERIF_SELFTEST") {
+        // "abort:<index>" | "hang:<index>": poison one scenario to exercise the abort/hang path
+        if let Some((kind, idx)) = st.split_once(':') {
+            if let Ok(i) = idx.parse::<u64>() {
+                let sc = check.generate(run_seed(seed, id, i), i, tier);
+                let mut hh = H64::new();
+                hh.str(&sc.to_string());
+                std::env::set_var("VERIF_SELFTEST_POISON", format!("{kind}:{}", hh.finish()));
+            }
+        }
+    }
     let mut workers = nworkers().min(n.max(1));
     if check.dual_mode() {
         // index parity decides the build mode; with an even shard count, shard parity = index parity
@@ -415,7 +446,9 @@ fn supervise(check: &'static dyn Check, tier: Tier) -> i32 {
         children.push((shard, child, Instant::now(), 0u64 /*last wal index*/));
     }
     // watchdog loop
-    let watchdog = Duration::from_secs(check.watchdog_s(tier));
+    let watchdog = Duration::from_secs(
+        std::env::var("VERIF_WATCHDOG_S").ok().and_then(|s| s.parse().ok()).unwrap_or_else(|| check.watchdog_s(tier)),
+    );
     let mut dead: Vec<(u64, Option<Value>, String)> = Vec::new(); // shard, wal, reason
     let mut done = vec![false; workers as usize];
     loop {
@@ -666,7 +699,11 @@ fn replay_main(checks: &[&'static dyn Check], path: &Path) -> i32 {
     let scenario = v["scenario"].clone();
     let isolated = v["isolated"].as_bool().unwrap_or(false) || check.dual_mode();
     let (viols, h) = if isolated {
-        eval_isolated(*check, &scenario, Duration::from_secs(check.watchdog_s(Tier::Quick)))
+        eval_isolated(
+            *check,
+            &scenario,
+            Duration::from_secs(std::env::var("VERIF_WATCHDOG_S").ok().and_then(|s| s.parse().ok()).unwrap_or_else(|| check.watchdog_s(Tier::Quick))),
+        )
     } else {
         let c = *check;
         big_stack(move || {
